@@ -22,7 +22,7 @@ MODULE = 'SshAudit.Props.C03'
 NAMESPACE = 'SshAudit.C03'
 THEOREMS = ['notes_local', 'line_notes', 'notes_independent_of_sizes', 'gss_wildcard', 'unknown_flagged', 'unknown_flagged_json', 'known_not_unknown',
             'textsAt_fail', 'textsAt_warn', 'json_eq_text_fail_warn']
-EXTENSIONS = []   # 'props.ext.C03_lookup' is re-enabled once its model follows the D38 repair (30bf544)
+EXTENSIONS = ['props.ext.C03_lookup']
 TECHNIQUE = 'Lean 4 theorems (list-homomorphism locality, rindex lemma for the gss wildcard over unbounded suffixes, per-level text/JSON equality) + every-database-name correspondence across text, JSON and --lookup'
 LEVEL_TEXT = ('A line\'s notes are proved to be a function of (database state, category, name) only — no position, neighbour, role, size map or option enters — gss names of any suffix rate as their wildcard entry, '
               'unknown names are always flagged in both views, and JSON failure/warning notes equal the text ones. Every database name is rendered on the real code in every view and position and compared with the model.')
